@@ -198,3 +198,547 @@ Lemma fc_block_end p y : s_fc (sc (block_end p y)) = s_fc (sc y).
 Proof. unfold block_end. destruct (s_end (sc y)); apply fc_mark. Qed.
 Lemma dd_block_end p y : dd (block_end p y) <-> dd y.
 Proof. unfold dd. rewrite end_block_end. destruct (s_end (sc y)) as [[r t i| |]|]; cbn; split; congruence. Qed.
+
+(* ------------------------------------------------------------------ *)
+(* the invariants *)
+Definition g_st (r : gres) : st := fst (fst r).
+Definition g_rs (r : gres) : option End := snd (fst r).
+Definition g_lg (r : gres) : list gent := snd r.
+Definition l_st (r : gres_l) : st := fst (fst r).
+Definition l_tops (r : gres_l) : list (option End) := snd (fst r).
+Definition l_lg (r : gres_l) : list gent := snd r.
+
+(* (A1) recorded facts are never lost *)
+Definition mono (x0 x1 : st) : Prop :=
+  (s_fb (sc x0) = Some None -> s_fb (sc x1) = Some None) /\
+  (s_fc (sc x0) = true -> s_fc (sc x1) = true) /\
+  (s_mt (sc x0) = true -> s_mt (sc x1) = true).
+(* (A2) a case of a switch that was analysed live and is claimed to stop cannot complete normally *)
+Definition cases_ok (lg : list gent) : Prop := forall b, In (GCase b true true) lg -> cN (csem_l b) = false.
+(* (A3) logged statement positions are keys of the statement *)
+Definition lkeys_in (lg : list gent) (K : list N) : Prop := forall k d fl, In (GStmt k d fl) lg -> In k K.
+
+Definition has_cont (c : comps) : bool := cC0 c || negb (is_nil (cCL c)).
+(* (B2..B5) P2: dead afterwards => cannot complete normally; P3/P4/P5: escaping break / continue / throw is recorded *)
+Definition post_sc (x1 : st) (c : comps) : Prop :=
+  (dd x1 -> cN c = false) /\
+  (cB0 c = true -> s_fb (sc x1) = Some None) /\
+  (has_cont c = true -> s_fc (sc x1) = true) /\
+  (cT c = true -> s_mt (sc x1) = true).
+(* (B1) P1: a statement visited while the scope was dead is not entered *)
+Definition flags_ok (lg : list gent) (R : list N) : Prop := forall k fl, In (GStmt k true fl) lg -> ~ In k R.
+
+Definition okA (op : st -> gres) (K : list N) : Prop :=
+  forall x, mono x (g_st (op x)) /\ cases_ok (g_lg (op x)) /\ lkeys_in (g_lg (op x)) K.
+Definition okB (op : st -> gres) (c : comps) (R : list N) : Prop :=
+  forall x, lv x ->
+    post_sc (g_st (op x)) c /\ (dead (g_rs (op x)) = true -> cN c = false) /\ flags_ok (g_lg (op x)) R.
+Definition okAl (op : st -> gres_l) (K : list N) : Prop :=
+  forall x, mono x (l_st (op x)) /\ cases_ok (l_lg (op x)) /\ lkeys_in (l_lg (op x)) K.
+Definition okBl (op : st -> gres_l) (c : comps) (R : list N) : Prop :=
+  forall x, lv x ->
+    post_sc (l_st (op x)) c /\ (tops_stop (l_tops (op x)) = true -> cN c = false) /\ flags_ok (l_lg (op x)) R.
+
+Lemma mono_refl x : mono x x.
+Proof. repeat split; intros H; exact H. Qed.
+Lemma mono_trans x y z : mono x y -> mono y z -> mono x z.
+Proof. intros [A1 [A2 A3]] [B1 [B2 B3]]. repeat split; intros H; auto. Qed.
+Lemma mono_sc x y : sc x = sc y -> mono x y.
+Proof. intros E. unfold mono. rewrite E. repeat split; intros H; exact H. Qed.
+
+Lemma mono_mark k e x : mono x (mark_as_end k e x).
+Proof. unfold mono. rewrite fb_mark, fc_mark, mt_mark. repeat split; intros H; exact H. Qed.
+Lemma mono_visit_lit x : mono x (visit_lit x).
+Proof. unfold mono. rewrite fb_visit_lit, fc_visit_lit, mt_visit_lit. repeat split; intros H; try exact H. rewrite H. reflexivity. Qed.
+Lemma mono_visit_e e x : mono x (visit_e e x).
+Proof. unfold mono. rewrite fb_visit_e, fc_visit_e. repeat split; intros H; try exact H. apply mt_visit_e_mono. exact H. Qed.
+Lemma mono_visit_cond c x : mono x (visit_cond c x).
+Proof. unfold mono. rewrite fb_visit_cond, fc_visit_cond. repeat split; intros H; try exact H. apply mt_visit_cond_mono. exact H. Qed.
+Lemma mono_block_end p x : mono x (block_end p x).
+Proof. unfold mono. rewrite fb_block_end, fc_block_end, mt_block_end. repeat split; intros H; exact H. Qed.
+Lemma mono_set_end x e : mono x (set_end x e).
+Proof. repeat split; intros H; exact H. Qed.
+Lemma mono_child_exit k start x c : mono x (child_exit fx k start x c).
+Proof.
+  unfold mono. rewrite fc_child_exit, mt_child_exit. repeat split; intros H.
+  - apply fb_child_exit_mono. exact H.
+  - rewrite H. reflexivity.
+  - rewrite H. reflexivity.
+Qed.
+
+Lemma cases_ok_nil : cases_ok [].
+Proof. intros b []. Qed.
+Lemma cases_ok_app a b : cases_ok a -> cases_ok b -> cases_ok (a ++ b).
+Proof. intros Ha Hb x H. apply in_app_or in H. destruct H; [apply Ha | apply Hb]; assumption. Qed.
+Lemma cases_ok_stmt k d fl lg : cases_ok lg -> cases_ok (GStmt k d fl :: lg).
+Proof. intros H b [E | Hin]; [discriminate | apply H; exact Hin]. Qed.
+
+Lemma lkeys_in_nil K : lkeys_in [] K.
+Proof. intros k d fl []. Qed.
+Lemma lkeys_in_app a b K : lkeys_in a K -> lkeys_in b K -> lkeys_in (a ++ b) K.
+Proof. intros Ha Hb k d fl H. apply in_app_or in H. destruct H; [eapply Ha | eapply Hb]; eassumption. Qed.
+Lemma lkeys_in_weak a K K' : lkeys_in a K -> incl K K' -> lkeys_in a K'.
+Proof. intros Ha Hi k d fl H. apply Hi. eapply Ha. eassumption. Qed.
+Lemma lkeys_in_case b l s lg K : lkeys_in lg K -> lkeys_in (GCase b l s :: lg) K.
+Proof. intros H k d fl [E | Hin]; [discriminate | eapply H; eassumption]. Qed.
+
+Lemma flags_ok_nil R : flags_ok [] R.
+Proof. intros k fl []. Qed.
+Lemma flags_ok_case b l s lg R : flags_ok lg R -> flags_ok (GCase b l s :: lg) R.
+Proof. intros H k fl [E | Hin]; [discriminate | eapply H; eassumption]. Qed.
+(* logged keys in K, and K disjoint from R *)
+Lemma flags_ok_disjoint lg K R : lkeys_in lg K -> (forall k, In k K -> ~ In k R) -> flags_ok lg R.
+Proof. intros Hk Hd k fl Hin. apply Hd. eapply Hk. eassumption. Qed.
+Lemma flags_ok_app_r lg R1 R2 : flags_ok lg R1 -> flags_ok lg R2 -> flags_ok lg (R1 ++ R2).
+Proof. intros H1 H2 k fl Hin Hr. apply in_app_or in Hr. destruct Hr; [eapply H1 | eapply H2]; eassumption. Qed.
+Lemma flags_ok_app_l lg1 lg2 R : flags_ok lg1 R -> flags_ok lg2 R -> flags_ok (lg1 ++ lg2) R.
+Proof. intros H1 H2 k fl Hin. apply in_app_or in Hin. destruct Hin; [eapply H1 | eapply H2]; eassumption. Qed.
+Lemma flags_ok_cons_r lg p R : flags_ok lg [p] -> flags_ok lg R -> flags_ok lg (p :: R).
+Proof. intros H1 H2. apply (flags_ok_app_r lg [p] R H1 H2). Qed.
+
+(* reach and keys *)
+Lemma reach_keys :
+  (forall s k, In k (reach s) -> In k (keys s)) /\
+  (forall l k, In k (reach_l l) -> In k (keys_l l)) /\
+  (forall cs k, In k (reach_c cs) -> In k (keys_c cs)).
+Proof.
+  apply stmt_mutind; cbn [reach keys reach_l keys_l reach_c keys_c].
+  - intros p e k [<-|[]]; left; reflexivity.
+  - intros p k [<-|[]]; left; reflexivity.
+  - intros p v i k [<-|[]]; left; reflexivity.
+  - intros p n pb b IH k [<-|H]; [left; reflexivity | right; right; apply IH; exact H].
+  - intros p pb b IH k [<-|H]; [left; reflexivity | right; right; apply IH; exact H].
+  - intros p a k [<-|[]]; left; reflexivity.
+  - intros p e k [<-|[]]; left; reflexivity.
+  - intros p l k [<-|[]]; left; reflexivity.
+  - intros p l k [<-|[]]; left; reflexivity.
+  - intros p b IH k [<-|H]; [left; reflexivity | right; apply IH; exact H].
+  - intros p c a IH k [<-|H]; [left; reflexivity | right]. destruct (may_true c); [apply IH; exact H | destruct H].
+  - intros p c a IHa b IHb k [<-|H]; [left; reflexivity | right]. apply in_or_app. apply in_app_or in H. destruct H as [H|H].
+    + left. destruct (may_true c); [apply IHa; exact H | destruct H].
+    + right. destruct (may_false c); [apply IHb; exact H | destruct H].
+  - intros p c b IH k [<-|H]; [left; reflexivity | right]. destruct (may_true c); [apply IH; exact H | destruct H].
+  - intros p b IH c k [<-|H]; [left; reflexivity | right; apply IH; exact H].
+  - intros p c b IH k [<-|H]; [left; reflexivity | right]. destruct c as [c|]; [destruct (may_true c); [apply IH; exact H | destruct H] | apply IH; exact H].
+  - intros p b IH k [<-|H]; [left; reflexivity | right; apply IH; exact H].
+  - intros p b IH k [<-|H]; [left; reflexivity | right; apply IH; exact H].
+  - intros p cs IH k [<-|H]; [left; reflexivity | right; apply IH; exact H].
+  - intros p l b IH k [<-|H]; [left; reflexivity | right; apply IH; exact H].
+  - intros p bp blk IHb h hb IHh f fb IHf k [<-|H]; [left; reflexivity | right; right].
+    apply in_or_app. apply in_app_or in H. destruct H as [H|H]; [left; apply IHb; exact H | right].
+    apply in_or_app. apply in_app_or in H. destruct H as [H|H].
+    + left. destruct h as [[cp hbp]|]; [|destruct H]. destruct (cT (csem_l blk)); [|destruct H]. right; right. apply IHh. exact H.
+    + right. destruct f as [fp|]; [|destruct H].
+      match type of H with In _ (if ?b then _ else _) => destruct b end; [|destruct H]. right. apply IHf. exact H.
+  - intros k [].
+  - intros s IHs r IHr k H. apply in_or_app. apply in_app_or in H. destruct H as [H|H]; [left; apply IHs; exact H | right].
+    destruct (cN (csem s [])); [apply IHr; exact H | destruct H].
+  - intros k [].
+  - intros cp d ft b IHb r IHr k H. right. apply in_or_app. apply in_app_or in H. destruct H as [H|H]; [left; apply IHb | right; apply IHr]; exact H.
+Qed.
+
+(* ------------------------------------------------------------------ *)
+(* NoDup helpers *)
+Lemma NoDup_app_inv {A} (a b : list A) :
+  NoDup (a ++ b) -> NoDup a /\ NoDup b /\ (forall x, In x a -> ~ In x b).
+Proof.
+  induction a as [|y a IH]; cbn [app].
+  - intros H. repeat split; [constructor | exact H | intros x []].
+  - intros H. inversion H as [|y' l Hn Hd]; subst. destruct (IH Hd) as [Ha [Hb Hdis]].
+    repeat split.
+    + constructor; [intros Hin; apply Hn; apply in_or_app; left; exact Hin | exact Ha].
+    + exact Hb.
+    + intros x [<-|Hin] Hb'; [apply Hn; apply in_or_app; right; exact Hb' | exact (Hdis x Hin Hb')].
+Qed.
+Lemma NoDup_cons_inv {A} (x : A) l : NoDup (x :: l) -> ~ In x l /\ NoDup l.
+Proof. intros H. inversion H; subst. split; assumption. Qed.
+
+(* ------------------------------------------------------------------ *)
+(* the visit_stmt wrapper *)
+Definition wrap (s : stmt) (V : st -> gres) (x0 : st) : gres :=
+  gcons (GStmt (pos s) (dead_now x0) (stmt_unreachable s x0)) (V (set_unreach (pos s) (stmt_unreachable s x0) x0)).
+
+Lemma g_st_gcons g r : g_st (gcons g r) = g_st r.
+Proof. destruct r as [[y rs] lg]. reflexivity. Qed.
+Lemma g_rs_gcons g r : g_rs (gcons g r) = g_rs r.
+Proof. destruct r as [[y rs] lg]. reflexivity. Qed.
+Lemma g_lg_gcons g r : g_lg (gcons g r) = g :: g_lg r.
+Proof. destruct r as [[y rs] lg]. reflexivity. Qed.
+
+Lemma wrap_A s V K K' : okA V K -> incl K K' -> In (pos s) K' -> okA (wrap s V) K'.
+Proof.
+  intros HV Hi Hp x0. unfold wrap. rewrite g_st_gcons, g_lg_gcons.
+  destruct (HV (set_unreach (pos s) (stmt_unreachable s x0) x0)) as [Hm [Hc Hk]].
+  split; [|split].
+  - eapply mono_trans; [apply (mono_sc x0 (set_unreach (pos s) (stmt_unreachable s x0) x0)); reflexivity | exact Hm].
+  - apply cases_ok_stmt. exact Hc.
+  - intros k d fl [E | Hin]; [injection E as <- _ _; exact Hp | apply Hi; eapply Hk; eassumption].
+Qed.
+
+Lemma wrap_B s V K c R : okB V c R -> okA V K -> (forall k, In k K -> k <> pos s) -> okB (wrap s V) c (pos s :: R).
+Proof.
+  intros HB HA Hne x0 Hl. unfold wrap. rewrite g_st_gcons, g_rs_gcons, g_lg_gcons.
+  assert (Hl' : lv (set_unreach (pos s) (stmt_unreachable s x0) x0)) by exact Hl.
+  destruct (HB _ Hl') as [Hp [Hr Hf]]. destruct (HA (set_unreach (pos s) (stmt_unreachable s x0) x0)) as [_ [_ Hk]].
+  split; [exact Hp | split; [exact Hr|]].
+  intros k fl [E | Hin].
+  - injection E as _ Hd _. exfalso. unfold lv in Hl. unfold dead_now in Hd. rewrite live_not_dead, Hd in Hl. discriminate.
+  - intros [E | Hr']; [apply (Hne k); [eapply Hk; eassumption | symmetry; exact E] | exact (Hf k fl Hin Hr')].
+Qed.
+
+(* visit_stmt_or_block *)
+Lemma orb_A s op K : okA op K -> okA (fun a => orbG s (op a)) K.
+Proof.
+  intros H x. destruct (H x) as [Hm [Hc Hk]]. unfold orbG. destruct (op x) as [[y rs] lg]. cbn [g_st g_lg fst snd] in *.
+  destruct (is_brk_or_cont s); cbn [g_st g_lg fst snd]; [|split; [exact Hm | split; assumption]].
+  split; [apply (mono_trans x y _ Hm (mono_mark _ _ _)) | split; assumption].
+Qed.
+
+Lemma orb_B s op c R : okB op c R -> (is_brk_or_cont s = true -> cN c = false) -> okB (fun a => orbG s (op a)) c R.
+Proof.
+  intros H Hbc x Hl. destruct (H x Hl) as [[P2 [P3 [P4 P5]]] [Hr Hf]]. unfold orbG. destruct (op x) as [[y rs] lg].
+  cbn [g_st g_rs g_lg fst snd] in *.
+  destruct (is_brk_or_cont s) eqn:E; cbn [g_st g_rs g_lg fst snd]; [|split; [split; [exact P2 | split; [exact P3 | split; [exact P4 | exact P5]]] | split; assumption]].
+  split; [|split; [intros _; apply Hbc; reflexivity | exact Hf]].
+  split; [intros _; apply Hbc; reflexivity|]. rewrite fb_mark, fc_mark, mt_mark. split; [exact P3 | split; [exact P4 | exact P5]].
+Qed.
+
+(* a block / function body / try block ends: block_endG *)
+Lemma block_end_A p op K : okAl op K -> okA (fun a => block_endG p (op a)) K.
+Proof.
+  intros H x. destruct (H x) as [Hm [Hc Hk]]. unfold block_endG. destruct (op x) as [[y tops] lg].
+  cbn [g_st g_lg l_st l_lg fst snd] in *. split; [apply (mono_trans x y _ Hm (mono_block_end _ _)) | split; assumption].
+Qed.
+
+Lemma block_end_B p op c R : okBl op c R -> okB (fun a => block_endG p (op a)) c R.
+Proof.
+  intros H x Hl. destruct (H x Hl) as [[P2 [P3 [P4 P5]]] [Hr Hf]]. unfold block_endG. destruct (op x) as [[y tops] lg].
+  cbn [g_st g_rs g_lg l_st l_tops l_lg fst snd] in *.
+  split; [|split; [|exact Hf]].
+  - split; [intros Hd; apply P2; apply dd_block_end in Hd; exact Hd|].
+    rewrite fb_block_end, fc_block_end, mt_block_end. split; [exact P3 | split; [exact P4 | exact P5]].
+  - intros Hd. apply P2. unfold dd. destruct (s_end (sc y)) as [[r t i| |]|]; cbn in Hd |- *; congruence.
+Qed.
+
+(* leaves *)
+Lemma post_sc_live x1 c : lv x1 ->
+  (cB0 c = true -> s_fb (sc x1) = Some None) -> (has_cont c = true -> s_fc (sc x1) = true) ->
+  (cT c = true -> s_mt (sc x1) = true) -> post_sc x1 c.
+Proof. intros Hl H3 H4 H5. split; [intros Hd; exfalso; exact (lv_not_dd _ Hl Hd) | split; [exact H3 | split; [exact H4 | exact H5]]]. Qed.
+
+Lemma leaf_A (f : st -> st) : (forall x, mono x (f x)) -> okA (fun x => (f x, None, [])) [].
+Proof. intros H x. cbn [g_st g_lg fst snd]. split; [apply H | split; [apply cases_ok_nil | apply lkeys_in_nil]]. Qed.
+
+Lemma expr_B e : okB (fun x => (visit_e e x, None, [])) (cset_T (e_throws e) only_N) [].
+Proof.
+  intros x Hl. cbn [g_st g_rs g_lg fst snd]. split; [|split; [discriminate | apply flags_ok_nil]].
+  apply post_sc_live; [unfold lv; rewrite end_visit_e; exact Hl | discriminate | discriminate |].
+  cbn [cset_T cT]. apply mt_visit_e_throws. exact Hl.
+Qed.
+
+Lemma empty_B : okB (fun x => (x, None, [])) only_N [].
+Proof.
+  intros x Hl. cbn [g_st g_rs g_lg fst snd]. split; [|split; [discriminate | apply flags_ok_nil]].
+  apply post_sc_live; [exact Hl | discriminate | discriminate | discriminate].
+Qed.
+
+Lemma var_B i : okB (fun x => (match i with Some e => visit_e e x | None => x end, None, [])) (cset_T (oe_throws i) only_N) [].
+Proof. destruct i as [e|]; [apply expr_B | apply empty_B]. Qed.
+
+Lemma ret_B p a :
+  okB (fun x => let '(y, r) := visit_returnG p a x in (y, r, []))
+      {| cN := false; cR := true; cT := oe_throws a; cB0 := false; cC0 := false; cBL := []; cCL := [] |} [].
+Proof.
+  intros x Hl. unfold visit_returnG. cbn [g_st g_rs g_lg fst snd]. split; [|split; [reflexivity | apply flags_ok_nil]].
+  repeat split; try discriminate. cbn [cT]. rewrite mt_mark. destruct a as [e|]; [apply mt_visit_e_throws; exact Hl | discriminate].
+Qed.
+
+Lemma throw_B p e : okB (fun x => let '(y, r) := visit_throwG fx p e x in (y, r, [])) (t_if true) [].
+Proof.
+  intros x Hl. unfold visit_throwG. cbn [fixD fx repaired g_st g_rs g_lg fst snd]. split; [|split; [reflexivity | apply flags_ok_nil]].
+  repeat split; try discriminate. intros _. rewrite mt_mark, mt_visit_lit. unfold live_now. rewrite end_visit_e.
+  unfold lv in Hl. rewrite Hl. apply orb_true_r.
+Qed.
+
+Lemma brk_B l : okB (fun x => (visit_break fx l x, None, []))
+  (match l with None => {| cN := false; cR := false; cT := false; cB0 := true; cC0 := false; cBL := []; cCL := [] |}
+              | Some l => {| cN := false; cR := false; cT := false; cB0 := false; cC0 := false; cBL := [l]; cCL := [] |} end) [].
+Proof.
+  intros x Hl. cbn [g_st g_rs g_lg fst snd]. split; [|split; [discriminate | apply flags_ok_nil]].
+  unfold visit_break. cbn [fixB fx repaired].
+  destruct l as [l|]; [destruct (s_fb (sc x))|]; repeat split; try discriminate; try reflexivity.
+Qed.
+
+Lemma cont_B l : okB (fun x => (set_fc x true, None, []))
+  (match l with None => {| cN := false; cR := false; cT := false; cB0 := false; cC0 := true; cBL := []; cCL := [] |}
+              | Some l => {| cN := false; cR := false; cT := false; cB0 := false; cC0 := false; cBL := []; cCL := [l] |} end) [].
+Proof.
+  intros x Hl. cbn [g_st g_rs g_lg fst snd]. split; [|split; [discriminate | apply flags_ok_nil]].
+  destruct l as [l|]; repeat split; try discriminate; try reflexivity.
+Qed.
+
+Lemma mono_visit_break l x : mono x (visit_break fx l x).
+Proof.
+  unfold visit_break. cbn [fixB fx repaired]. destruct l as [l|]; [destruct (s_fb (sc x)) eqn:E|].
+  - apply mono_refl.
+  - repeat split; intros H; try exact H; try (cbn in H; congruence).
+  - repeat split; intros H; try exact H; try reflexivity.
+Qed.
+
+(* ------------------------------------------------------------------ *)
+(* completion-set helpers *)
+Lemma has_cont_cunion a b : has_cont (cunion a b) = has_cont a || has_cont b.
+Proof.
+  unfold has_cont. cbn [cunion cC0 cCL]. destruct (cC0 a), (cC0 b), (cCL a), (cCL b); reflexivity.
+Qed.
+Lemma has_cont_cempty : has_cont cempty = false. Proof. reflexivity. Qed.
+Lemma has_cont_t_if b : has_cont (t_if b) = false. Proof. reflexivity. Qed.
+Lemma has_cont_n_if b : has_cont (n_if b) = false. Proof. reflexivity. Qed.
+Lemma has_cont_cset_N b c : has_cont (cset_N b c) = has_cont c. Proof. reflexivity. Qed.
+Lemma has_cont_cset_T b c : has_cont (cset_T b c) = has_cont c. Proof. reflexivity. Qed.
+
+Ltac dsplit := repeat match goal with |- _ /\ _ => split end.
+
+Lemma if_eq_N (b : bool) c : cN c = false -> cN (if b then c else cempty) = false.
+Proof. intros H. destruct b; [exact H | reflexivity]. Qed.
+Lemma if_field (f : comps -> bool) (b : bool) c :
+  f cempty = false -> f (if b then c else cempty) = true -> f c = true /\ b = true.
+Proof. intros H0 H. destruct b; [split; [exact H | reflexivity] | congruence]. Qed.
+Lemma or_field (f : comps -> bool) (b1 b2 : bool) c1 c2 :
+  f cempty = false -> f (if b1 then c1 else cempty) || f (if b2 then c2 else cempty) = true ->
+  f c1 = true /\ b1 = true \/ f c2 = true /\ b2 = true.
+Proof.
+  intros H0 H. apply orb_true_iff in H. destruct H as [H|H]; [left | right]; apply if_field; assumption.
+Qed.
+Lemma flags_ok_nil' lg : flags_ok lg [].
+Proof. intros k fl _ []. Qed.
+
+(* ------------------------------------------------------------------ *)
+(* child scopes, generically *)
+Lemma with_child_A k start op K : okA op K -> okA (with_childG fx k start op) K.
+Proof.
+  intros H x. unfold with_childG. destruct (H (child_enter k x)) as [_ [Hc Hk]].
+  destruct (op (child_enter k x)) as [[c r] lg]. cbn [g_st g_lg fst snd] in *.
+  dsplit; [apply mono_child_exit | exact Hc | exact Hk].
+Qed.
+
+(* function-like bodies *)
+Lemma fn_A p pb body K : okAl body K -> okA (fn_likeG fx p pb body) K.
+Proof.
+  intros H x. unfold fn_likeG, block_endG. destruct (H (child_enter KFunction x)) as [_ [Hc Hk]].
+  destruct (body (child_enter KFunction x)) as [[c tops] lg]. cbn [g_st g_lg l_lg fst snd] in *.
+  dsplit; [apply mono_child_exit | exact Hc | exact Hk].
+Qed.
+
+Lemma fn_B p pb body cb Rb : okBl body cb Rb -> okB (fn_likeG fx p pb body) only_N Rb.
+Proof.
+  intros H x Hl. unfold fn_likeG, block_endG. destruct (H (child_enter KFunction x) (lv_child_enter_fn x)) as [_ [_ Hf]].
+  destruct (body (child_enter KFunction x)) as [[c tops] lg]. cbn [g_st g_rs g_lg l_lg fst snd fixC fx repaired] in *.
+  dsplit.
+  - apply post_sc_live; try discriminate. unfold lv. rewrite end_child_exit_fn. exact Hl.
+  - destruct (s_end (sc (block_end pb c))) as [[r t i| |]|]; discriminate.
+  - exact Hf.
+Qed.
+
+Lemma arrow_A p pb body K : okAl body K -> okA (fun x => let '(y, r, lg) := fn_likeG fx p pb body x in (visit_lit y, r, lg)) K.
+Proof.
+  intros H x. destruct (fn_A p pb body K H x) as [Hm [Hc Hk]]. destruct (fn_likeG fx p pb body x) as [[y r] lg].
+  cbn [g_st g_lg fst snd] in *. dsplit; [eapply mono_trans; [exact Hm | apply mono_visit_lit] | exact Hc | exact Hk].
+Qed.
+
+Lemma arrow_B p pb body cb Rb :
+  okBl body cb Rb -> okB (fun x => let '(y, r, lg) := fn_likeG fx p pb body x in (visit_lit y, r, lg)) only_N Rb.
+Proof.
+  intros H x Hl. destruct (fn_B p pb body cb Rb H x Hl) as [[P2 _] [Hr Hf]]. destruct (fn_likeG fx p pb body x) as [[y r] lg].
+  cbn [g_st g_rs g_lg fst snd] in *. dsplit; [|exact Hr | exact Hf].
+  split; [|dsplit; discriminate]. intros Hd. apply P2. unfold dd in *. rewrite end_visit_lit in Hd. exact Hd.
+Qed.
+
+(* if without else *)
+Lemma if_A p c p1 op1 K : okA op1 K -> okA (visit_ifG fx p c p1 op1) K.
+Proof.
+  intros H x. unfold visit_ifG. destruct (with_child_A KIf p1 op1 K H (visit_cond c x)) as [Hm [Hc Hk]].
+  destruct (with_childG fx KIf p1 op1 (visit_cond c x)) as [[x2 r] lg]. cbn [g_st g_lg fst snd] in *.
+  dsplit; [|exact Hc | exact Hk].
+  eapply mono_trans; [apply mono_visit_cond|]. eapply mono_trans; [exact Hm|].
+  eapply mono_trans; [apply mono_mark | apply mono_set_end].
+Qed.
+
+Lemma if_B p c p1 op1 c1 R1 :
+  okB op1 c1 R1 ->
+  okB (visit_ifG fx p c p1 op1)
+      (cunion (t_if (cond_throws c)) (cunion (if may_true c then c1 else cempty) (n_if (may_false c))))
+      (if may_true c then R1 else []).
+Proof.
+  intros H x Hl. unfold visit_ifG, with_childG.
+  assert (Hl1 : lv (visit_cond c x)) by (unfold lv; rewrite end_visit_cond; exact Hl).
+  destruct (H (child_enter KIf (visit_cond c x)) (lv_child_enter KIf _ Hl1)) as [[P2 [P3 [P4 P5]]] [Hr Hf]].
+  destruct (op1 (child_enter KIf (visit_cond c x))) as [[c' r] lg]. cbn [g_st g_rs g_lg fst snd] in *.
+  dsplit.
+  - apply post_sc_live.
+    + unfold lv. cbn [set_end with_sc sc s_end]. exact Hl1.
+    + cbn [cunion cB0 t_if n_if cset_T cset_N cempty orb]. rewrite orb_false_r. intros Hb.
+      cbn [set_end with_sc sc s_fb]. rewrite fb_mark. apply fb_child_exit_child; [reflexivity|].
+      apply P3. destruct (may_true c); [exact Hb | discriminate].
+    + rewrite !has_cont_cunion, has_cont_t_if, has_cont_n_if, orb_false_r. cbn [orb]. intros Hb.
+      cbn [set_end with_sc sc s_fc]. rewrite fc_mark, fc_child_exit. rewrite P4; [apply orb_true_r|].
+      destruct (may_true c); [exact Hb | discriminate].
+    + cbn [cunion cT t_if n_if cset_T cset_N cempty]. rewrite orb_false_r. intros Hb.
+      cbn [set_end with_sc sc s_mt]. rewrite mt_mark, mt_child_exit. apply orb_true_iff in Hb. destruct Hb as [Hb|Hb].
+      * rewrite (mt_visit_cond_throws c x Hl Hb). reflexivity.
+      * rewrite P5; [apply orb_true_r|]. destruct (may_true c); [exact Hb | discriminate].
+  - rewrite end_child_exit_if. rewrite (mark_val_live _ _ Hl1). discriminate.
+  - destruct (may_true c); [exact Hf | intros k fl _ []].
+Qed.
+
+(* if with else *)
+Lemma if_else_mark_dead r1 r2 e :
+  if_else_mark r1 r2 = Some e -> dead (Some e) = true -> dead r1 = true /\ dead r2 = true.
+Proof.
+  unfold if_else_mark. destruct r1 as [a|]; [|intros H; injection H as <-; discriminate].
+  destruct r2 as [b|]; [|intros H; injection H as <-; discriminate].
+  destruct a, b; cbn [is_forced andb merge_forced]; intros H; injection H as <-; cbn; intros Hd; try discriminate; split; reflexivity.
+Qed.
+
+Lemma if_else_A p c p1 op1 p2 op2 K1 K2 :
+  okA op1 K1 -> okA op2 K2 -> okA (visit_if_elseG fx p c p1 op1 p2 op2) (K1 ++ K2).
+Proof.
+  intros H1 H2 x. unfold visit_if_elseG.
+  destruct (with_child_A KIf p1 op1 K1 H1 (visit_cond c x)) as [Hm1 [Hc1 Hk1]].
+  destruct (with_childG fx KIf p1 op1 (visit_cond c x)) as [[x2 r1] lg1]. cbn [g_st g_lg fst snd] in *.
+  destruct (with_child_A KIf p2 op2 K2 H2 x2) as [Hm2 [Hc2 Hk2]].
+  destruct (with_childG fx KIf p2 op2 x2) as [[x3 r2] lg2]. cbn [g_st g_lg fst snd] in *.
+  dsplit.
+  - eapply mono_trans; [apply mono_visit_cond|]. eapply mono_trans; [exact Hm1|]. eapply mono_trans; [exact Hm2|].
+    unfold if_else_end. destruct (if_else_mark r1 r2); [apply mono_mark | apply mono_sc; reflexivity].
+  - apply cases_ok_app; assumption.
+  - apply lkeys_in_app; [eapply lkeys_in_weak; [exact Hk1 | apply incl_appl, incl_refl] | eapply lkeys_in_weak; [exact Hk2 | apply incl_appr, incl_refl]].
+Qed.
+
+Lemma if_else_B p c p1 op1 p2 op2 c1 c2 R1 R2 K1 K2 :
+  okB op1 c1 R1 -> okB op2 c2 R2 -> okA op1 K1 -> okA op2 K2 ->
+  (forall k, In k K1 -> ~ In k R2) -> (forall k, In k K2 -> ~ In k R1) ->
+  okB (visit_if_elseG fx p c p1 op1 p2 op2)
+      (cunion (t_if (cond_throws c)) (cunion (if may_true c then c1 else cempty) (if may_false c then c2 else cempty)))
+      ((if may_true c then R1 else []) ++ (if may_false c then R2 else [])).
+Proof.
+  intros H1 H2 A1 A2 D12 D21 x Hl. unfold visit_if_elseG, with_childG.
+  assert (Hl1 : lv (visit_cond c x)) by (unfold lv; rewrite end_visit_cond; exact Hl).
+  destruct (H1 (child_enter KIf (visit_cond c x)) (lv_child_enter KIf _ Hl1)) as [[P2 [P3 [P4 P5]]] [Hr Hf]].
+  destruct (A1 (child_enter KIf (visit_cond c x))) as [_ [_ Hk1]].
+  destruct (op1 (child_enter KIf (visit_cond c x))) as [[c1' r1] lg1]. cbn [g_st g_rs g_lg fst snd] in *.
+  set (x2 := child_exit fx KIf p1 (visit_cond c x) c1') in *.
+  assert (Hl2 : lv x2) by (unfold lv, x2; rewrite end_child_exit_if; exact Hl1).
+  destruct (H2 (child_enter KIf x2) (lv_child_enter KIf _ Hl2)) as [[Q2 [Q3 [Q4 Q5]]] [Qr Qf]].
+  destruct (A2 (child_enter KIf x2)) as [_ [_ Hk2]].
+  destruct (op2 (child_enter KIf x2)) as [[c2' r2] lg2]. cbn [g_st g_rs g_lg fst snd] in *.
+  set (x3 := child_exit fx KIf p2 x2 c2') in *.
+  assert (Hl3 : lv x3) by (unfold lv, x3; rewrite end_child_exit_if; exact Hl2).
+  assert (Hfb : cB0 c1 = true /\ may_true c = true \/ cB0 c2 = true /\ may_false c = true -> s_fb (sc x3) = Some None).
+  { intros [[Hb _]|[Hb _]].
+    - unfold x3. apply fb_child_exit_mono. unfold x2. apply fb_child_exit_child; [reflexivity | apply P3; exact Hb].
+    - unfold x3. apply fb_child_exit_child; [reflexivity | apply Q3; exact Hb]. }
+  assert (Hfc : has_cont c1 = true /\ may_true c = true \/ has_cont c2 = true /\ may_false c = true -> s_fc (sc x3) = true).
+  { intros [[Hb _]|[Hb _]]; unfold x3, x2; rewrite !fc_child_exit.
+    - rewrite (P4 Hb). rewrite orb_true_r. reflexivity.
+    - rewrite (Q4 Hb). apply orb_true_r. }
+  assert (Hmt : cond_throws c = true \/ cT c1 = true /\ may_true c = true \/ cT c2 = true /\ may_false c = true -> s_mt (sc x3) = true).
+  { intros [Hb|[[Hb _]|[Hb _]]]; unfold x3, x2; rewrite !mt_child_exit.
+    - rewrite (mt_visit_cond_throws c x Hl Hb). reflexivity.
+    - rewrite (P5 Hb). rewrite orb_true_r. reflexivity.
+    - rewrite (Q5 Hb). apply orb_true_r. }
+  assert (Hdead : forall e, if_else_mark r1 r2 = Some e -> dead (Some e) = true ->
+            cN (cunion (t_if (cond_throws c)) (cunion (if may_true c then c1 else cempty) (if may_false c then c2 else cempty))) = false).
+  { intros e He Hd. destruct (if_else_mark_dead _ _ _ He Hd) as [D1 D2].
+    cbn [cunion cN t_if cset_T cempty orb]. rewrite (if_eq_N (may_true c) c1 (Hr D1)), (if_eq_N (may_false c) c2 (Qr D2)). reflexivity. }
+  dsplit.
+  - unfold if_else_end. destruct (if_else_mark r1 r2) as [e|] eqn:He.
+    + split; [|rewrite fb_mark, fc_mark, mt_mark; dsplit].
+      * intros Hd. unfold dd in Hd. rewrite end_mark, (mark_end_live _ _ Hl3) in Hd. exact (Hdead e eq_refl Hd).
+      * cbn [cunion cB0 t_if cset_T cempty orb]. intros Hb. apply Hfb. apply (or_field cB0); [reflexivity | exact Hb].
+      * rewrite !has_cont_cunion, has_cont_t_if. cbn [orb]. intros Hb. apply Hfc. apply (or_field has_cont); [reflexivity | exact Hb].
+      * cbn [cunion cT t_if cset_T cempty]. intros Hb. apply Hmt. apply orb_true_iff in Hb. destruct Hb as [Hb|Hb]; [left; exact Hb | right].
+        apply (or_field cT); [reflexivity | exact Hb].
+    + apply post_sc_live; [exact Hl3 | | |].
+      * cbn [cunion cB0 t_if cset_T cempty orb]. intros Hb. apply Hfb. apply (or_field cB0); [reflexivity | exact Hb].
+      * rewrite !has_cont_cunion, has_cont_t_if. cbn [orb]. intros Hb. apply Hfc. apply (or_field has_cont); [reflexivity | exact Hb].
+      * cbn [cunion cT t_if cset_T cempty]. intros Hb. apply Hmt. apply orb_true_iff in Hb. destruct Hb as [Hb|Hb]; [left; exact Hb | right].
+        apply (or_field cT); [reflexivity | exact Hb].
+  - destruct (if_else_mark r1 r2) as [e|] eqn:He; [|discriminate].
+    rewrite (mark_val_live _ _ Hl3). apply Hdead. reflexivity.
+  - apply flags_ok_app_l; apply flags_ok_app_r.
+    + destruct (may_true c); [exact Hf | apply flags_ok_nil'].
+    + destruct (may_false c); [|apply flags_ok_nil']. eapply flags_ok_disjoint; [exact Hk1 | exact D12].
+    + destruct (may_true c); [|apply flags_ok_nil']. eapply flags_ok_disjoint; [exact Hk2 | exact D21].
+    + destruct (may_false c); [exact Qf | apply flags_ok_nil'].
+Qed.
+
+(* ------------------------------------------------------------------ *)
+(* loops *)
+Lemma cN_sem_loop pre post ls bc :
+  cN (sem_loop pre post ls bc) = may_false pre || (may_true pre && (cB0 bc || (again ls bc && may_false post))).
+Proof. exact (cin_sem_loop Normal pre post ls bc). Qed.
+Lemma cT_sem_loop pre post ls bc :
+  cT (sem_loop pre post ls bc) = cond_throws pre || (may_true pre && (cT bc || (again ls bc && cond_throws post))).
+Proof. exact (cin_sem_loop Thr pre post ls bc). Qed.
+Lemma cB0_sem_loop pre post ls bc : cB0 (sem_loop pre post ls bc) = false.
+Proof. change (cin (Brk None) (sem_loop pre post ls bc) = false). rewrite cin_sem_loop. rewrite andb_false_r. reflexivity. Qed.
+Lemma has_cont_sem_loop pre post ls bc : has_cont (sem_loop pre post ls bc) = true -> has_cont bc = true.
+Proof.
+  unfold sem_loop, has_cont. destruct (may_true pre); cbn [cunion t_if n_if cset_T cset_N cempty cC0 cCL app orb]; [|discriminate].
+  intros H. destruct (cCL bc) as [|l r]; [discriminate|]. cbn [is_nil negb]. apply orb_true_r.
+Qed.
+Lemma again_split ls bc : again ls bc = true -> cN bc = true \/ has_cont bc = true.
+Proof.
+  unfold again, has_cont. rewrite !orb_true_iff. intros [[H|H]|H]; [left; exact H | right; left; exact H | right; right].
+  destruct (cCL bc); [discriminate | reflexivity].
+Qed.
+
+Lemma while_post_sc r c lo a :
+  s_fb (sc (while_post_r r c lo a)) = s_fb (sc a) /\ s_fc (sc (while_post_r r c lo a)) = s_fc (sc a) /\
+  s_mt (sc (while_post_r r c lo a)) = s_mt (sc a) /\
+  (oend_forced (s_end (sc (while_post_r r c lo a))) = true -> known_true c = true /\ fb_unlabelled (s_fb (sc a)) = false).
+Proof.
+  unfold while_post_r. destruct r as [e|]; cbn [oend_forced].
+  - destruct (known_true c) eqn:Hk; cbn [andb]; [|cbn [set_end with_sc sc s_fb s_fc s_mt s_end]; rewrite fb_mark, fc_mark, mt_mark; dsplit; try reflexivity; discriminate].
+    destruct (fb_unlabelled (s_fb (sc a))) eqn:Hb; cbn [negb andb]; rewrite ?andb_false_r, ?andb_true_r.
+    + cbn [set_end with_sc sc s_fb s_fc s_mt s_end oend_forced is_forced]; rewrite fb_mark, fc_mark, mt_mark; dsplit; try reflexivity; discriminate.
+    + destruct (is_forced e); cbn [set_end with_sc sc s_fb s_fc s_mt s_end]; rewrite fb_mark, fc_mark, mt_mark; dsplit; try reflexivity; intros _; split; reflexivity.
+  - rewrite andb_false_r. cbn [andb].
+    destruct (known_true c) eqn:Hk; cbn [andb]; [|cbn [set_end with_sc sc s_fb s_fc s_mt s_end]; rewrite fb_mark, fc_mark, mt_mark; dsplit; try reflexivity; discriminate].
+    destruct (fb_unlabelled (s_fb (sc a))) eqn:Hb; cbn [negb]; cbn [set_end with_sc sc s_fb s_fc s_mt s_end oend_forced is_forced]; rewrite fb_mark, fc_mark, mt_mark; dsplit; try reflexivity; try discriminate.
+    intros _; split; reflexivity.
+Qed.
+
+Lemma while_A c lo body K : okA body K -> okA (visit_whileG fx c lo body) K.
+Proof.
+  intros H x. unfold visit_whileG. destruct (H (child_enter KLoop x)) as [_ [Hc Hk]].
+  destruct (body (child_enter KLoop x)) as [[a r] lg]. cbn [g_st g_lg fst snd] in *.
+  dsplit; [|exact Hc | exact Hk]. eapply mono_trans; [apply mono_child_exit | apply mono_visit_cond].
+Qed.
+
+Lemma while_B c lo body bc Rb ls :
+  okB body bc Rb -> okB (visit_whileG fx c lo body) (sem_loop c CTrue ls bc) (if may_true c then Rb else []).
+Proof.
+  intros H x Hl. unfold visit_whileG.
+  destruct (H (child_enter KLoop x) (lv_child_enter KLoop _ Hl)) as [[P2 [P3 [P4 P5]]] [Hr Hf]].
+  destruct (body (child_enter KLoop x)) as [[a r] lg]. cbn [g_st g_rs g_lg fst snd] in *.
+  destruct (while_post_sc r c lo a) as [Efb [Efc [Emt Eend]]].
+  set (a2 := while_post_r r c lo a) in *.
+  dsplit.
+  - split; [|dsplit].
+    + intros Hd. unfold dd in Hd. rewrite end_visit_cond, end_child_exit_loop in Hd.
+      destruct (s_end (sc a2)) as [[R T I| |]|] eqn:Ea; try (exfalso; unfold lv in Hl; rewrite live_not_dead, Hd in Hl; discriminate).
+      destruct (Eend eq_refl) as [Hk Hb]. destruct c; try discriminate.
+      rewrite cN_sem_loop. cbn [may_false may_true andb orb]. rewrite andb_false_r, orb_false_r.
+      destruct (cB0 bc) eqn:Eb; [|reflexivity]. rewrite (P3 eq_refl) in Hb. discriminate.
+    + rewrite cB0_sem_loop. discriminate.
+    + intros Hc. apply has_cont_sem_loop in Hc. rewrite fc_visit_cond, fc_child_exit, Efc, (P4 Hc). apply orb_true_r.
+    + rewrite cT_sem_loop. cbn [cond_throws andb]. rewrite andb_false_r, orb_false_r. intros Hc. apply orb_true_iff in Hc. destruct Hc as [Hc|Hc].
+      * apply mt_visit_cond_throws; [|exact Hc]. unfold lv. rewrite end_child_exit_loop.
+        destruct (s_end (sc a2)) as [[R T I| |]|] eqn:Ea; try exact Hl.
+        destruct (Eend eq_refl) as [Hk _]. destruct c; discriminate.
+      * apply andb_true_iff in Hc. destruct Hc as [_ Hc]. apply mt_visit_cond_mono. rewrite mt_child_exit, Emt, (P5 Hc). apply orb_true_r.
+  - discriminate.
+  - destruct (may_true c); [exact Hf | apply flags_ok_nil'].
+Qed.
